@@ -77,7 +77,7 @@ fuzz_target!(|data: &[u8]| {
         4 => FileTypeFixedStruct::Utmp,
         _ => FileTypeFixedStruct::Utmpx,
     };
-    let path = format!("/dev/shm/fz-fixed-{}.bin", std::process::id());
+    let path = format!("{}/fz-fixed-{}.bin", std::env::var("VP_FZ_DIR").unwrap_or_else(|_| "/dev/shm".to_string()), std::process::id());
     std::fs::write(&path, &data[1..]).unwrap();
     let a = read_all(&path, kind);
     let b = read_all(&path, kind);
